@@ -51,6 +51,8 @@ def make_scenario(rnd, counts, nues_choices=None, fault=None, opts=None):
     opts = opts or {}
     mnc_len = opts.get("mnc_len", rnd.choice([2, 3]))
     mcc = "".join(rnd.choice("0123456789") for _ in range(3))
+    if opts.get("mcc"):
+        mcc = opts["mcc"]
     mnc = "".join(rnd.choice("0123456789") for _ in range(mnc_len))
     imsi_len = opts.get("imsi_len", rnd.choice([13, 14, 15]))
     msin_len = imsi_len - 3 - mnc_len
@@ -62,6 +64,8 @@ def make_scenario(rnd, counts, nues_choices=None, fault=None, opts=None):
     if opts.get("free_msin") and msin_len >= 5 and counts["pdu"] == 0:
         # registration-only runs need no PDU session identity: let the subscriber block cross a multiple of 10^4
         low = 10000 - rnd.randrange(1, nreg + 1) if nreg > 1 else rnd.choice([9999, 0, rnd.randrange(10000)])
+        if nreg > 1 and "det" in opts:
+            low = 10000 - (nreg - 1) - opts["det"] % 2      # the last (or the last but one) UE of the run lands on ...0000
         base = max(base, 1) if low == 0 else base
     msin_val = base * 10000 + low if msin_len >= 4 else low
     msin = str(msin_val).zfill(msin_len)[-msin_len:]
@@ -120,6 +124,29 @@ def make_scenario(rnd, counts, nues_choices=None, fault=None, opts=None):
             ues[u]["amfId"] = num(rnd.choice([1 << 32, (1 << 40) - 1, rnd.randrange(1 << 32, 1 << 40)]))
         if u and ues[u]["amfId"] in [x["amfId"] for x in ues[:u]]:
             ues[u]["amfId"] = num(1000 + u)
+    if "det" in opts:
+        # the AMF's per-UE choices cycle with the run index and the UE index instead of being drawn: every class of every choice
+        # is met in every run of a check (quick tier: 3 runs), whatever the seed
+        d = opts["det"]
+        qlens = [0, 256, 9, 1000, 1, 255]
+        for u, ue in enumerate(ues):
+            s_ = d * 3 + u
+            rr = random.Random(rnd.random())
+            ue["optIEs"] = (d + u) % 3
+            ue["ngksi"] = [0, 6, 3, 1, 5][(d + u) % 5]
+            ue["amfField"] = [[0x80, 0], [0, 0], [0xff, 0xff]][(d + u) % 3]
+            if (d + 2 * u) % 3 < 2:
+                ue["sqn"] = [[0, 0, 0, 0, 0, 1], [255] * 6][(d + 2 * u) % 3]
+            if not (opts.get("big_amf_id") and u == 0):
+                ue["amfId"] = num(amf_ids[(3 * d + u) % len(amf_ids)])
+            ue["smOpt"] = s_ % 3
+            ue["qosRules"] = [rr.randrange(256) for _ in range(qlens[s_ % 6])]
+            ue["setupPaging"] = opts.get("setup_paging", s_ % 2 == 0)
+            ue["withAmbr"] = (s_ // 2) % 2 == 0
+            ue["ambrDl"] = num([1 << 32, 0, 4000000000000, 255, 256, 1][s_ % 6])
+        for u in range(1, len(ues)):
+            if ues[u]["amfId"] in [x["amfId"] for x in ues[:u]]:
+                ues[u]["amfId"] = num(1000 + u)
     scn = {"cfg": cfg, "ues": ues, "fault": fault or {"kind": "none", "at": -1, "bytes": []}}
     text = {"mcc": mcc, "mnc": mnc, "imsi": imsi, "name": name, "gid": "".join(chr(b) for b in gid),
             "k": "".join("%02x" % b for b in k), "op": "".join("%02x" % b for b in op), "opc": "".join("%02x" % b for b in opc),
